@@ -58,6 +58,35 @@ func gen(g *hx.Gen) {
 			} else {
 				g.Stat(keys[s] + ".maybe-disjoint")
 			}
+			if r.Chance(1, 10) {
+				// long name-lists: side-specific fillers push the decisive common names to high indexes
+				// (around 32, 64, 128 …) on either or both sides; two common names in opposite order.
+				lens := []int{20, 31, 32, 33, 40, 63, 64, 65, 100, 200}
+				x, y := hx.Pick(r, pool), hx.Pick(r, pool)
+				mk := func(side string, first, second string) []string {
+					L := lens[r.Intn(len(lens))]
+					at := []int{0, 1, L / 2, L - 2, L - 1, 31, 32, 33}[r.Intn(8)]
+					if at >= L {
+						at = L - 1
+					}
+					out := make([]string, 0, L+2)
+					for j := 0; j < L; j++ {
+						if j == at {
+							out = append(out, first)
+							if r.Chance(1, 2) {
+								out = append(out, second)
+							}
+						}
+						out = append(out, fmt.Sprintf("fill-%s%d@verif", side, j))
+					}
+					if at >= 32 {
+						g.Stat("long-list.common-at>=32")
+					}
+					return out
+				}
+				c, v = mk("c", x, y), mk("s", y, x)
+				g.Stat("long-list")
+			}
 			fmt.Fprintf(&sb, " c%s=%s s%s=%s", keys[s], hx.JoinStrs(c), keys[s], hx.JoinStrs(v))
 		}
 		g.Emit("%s", sb.String())
